@@ -14,6 +14,15 @@ claimed = {
  'C12': ("staged Montgomery proofs, bit-vector proofs of the mask/borrow code, exponent-domain unrolling of both addition chains, ring-mode sqrt_ratio", "4 C12"),
  'C13': ("integer-semantics postconditions of Equal/IsZero/IsOne/LessOrEqual/CSelect for all 64-bit condition words", "4 C13"),
  'C14': ("256 per-position postconditions over the FromMontgomery contract", "4 C14"),
+ 'C07': ("encode/decode postconditions for every input length class (including an 'any other length' class) and byte content, distinct error values, hex variants through a trusted hex model", "4 C07"),
+ 'C08': ("expand_message_xmd proved equal to the RFC 5.3.1 definition over an uninterpreted SHA-256 for every message and DST length class (incl. oversize), then hash_to_field, SSWU, chord addition and isogeny composed by contracts", "4 C08"),
+ 'C09': ("the same expander contract plus the wide-reduction postcondition of the scalar field", "4 C09"),
+ 'C11': ("ring-mode identity of SSWU with a transcription of RFC 9380 F.2 (all u, incl. the exceptional branch) and of the isogeny with E.1; on-curve and sign facts by Lean-proved lemmas", "4 C11"),
+ 'C15': ("frame obligations of every exported function: cells of every caller-owned object outside the receiver unchanged, appends into spare capacity modelled, returned slices fresh", "4 C15"),
+ 'C16': ("the C15 frame obligations plus 'no package-level variable is ever assigned'; race freedom follows from disjoint write frames (paper argument)", "4 C16"),
+ 'C17': ("call-site precondition registered(SHA-256) of crypto.Hash.New discharged from the package's own import closure in every build configuration", "4 C17"),
+ 'C18': ("loop invariant over a ghost entropy stream: result is the first block with non-zero residue, reduced; read failure is the only panic", "4 C18"),
+ 'C19': ("schedule-uniformity obligations: within every function reachable from Multiply all paths enter the same module functions in the same order; only the documented k=1 shortcut may bypass the ladder", "4 C19"),
 }
 checks=[]
 for pid,(text,ref) in claimed.items():
